@@ -285,7 +285,7 @@ def check_select(k, tier, acc):
                                                           "columns": list(map(str, ids)), "got": np.asarray(ov).tolist(), "want": want.tolist()})
                     break
                 sol = r if only_leafs else r[0]
-                acc.obs(mode, only_leafs, pi, sorted((str(a), int(b)) for a, b in sol.items()))
+                acc.obs(mode, only_leafs, pi, sorted((str(a), int(b) if isinstance(b, (int, np.integer)) else repr(b)) for a, b in sol.items()))
                 if mode == "none" or (mode == "exact" and len(F) == 0):
                     if sol != {}:
                         acc.violation(None, dict(cs, pi=pi), {"what": "None solution did not become an empty result", "got": repr(sol)})
